@@ -11,7 +11,18 @@ type Walker struct {
 	rng           uint64
 	BlockedWeight int // weight (out of 100) of a proc known to be blocked; default 4
 	Weights       map[string]int // optional relative weight per proc name (default 100)
+	EnvAlone      bool           // keep walking when only environment actions remain (default: stop)
+	Env           []EnvAction    // environment actions (spec processes that are not archetypes), scheduled like procs
 	blockedAt     map[string]string
+}
+
+// EnvAction is a step of the spec that no generated archetype performs (a plain PlusCal process of the
+// spec such as gcounter's UpdateGCntr merge, or a fault injected by the driver). Run performs it directly on
+// the System's State with the given choices and reports an Obs (Proc = Name, Outcome "commit" or "abort").
+type EnvAction struct {
+	Name   string
+	Weight int // relative weight, default 100
+	Run    func(sys *System, choices []uint64) Obs
 }
 
 // NewWalker seeds a walker (xorshift64*, deterministic across runs and platforms).
@@ -58,6 +69,24 @@ func (w *Walker) Next() (obs Obs, ok bool) {
 		cands = append(cands, cand{p.Name, wt})
 		total += wt
 	}
+	nprocs := len(cands)
+	for _, e := range w.Env {
+		wt := e.Weight
+		if wt == 0 {
+			wt = 100
+		}
+		if w.blockedAt[e.Name] == stateText {
+			wt = wt * w.BlockedWeight / 100
+			if wt == 0 {
+				wt = 1
+			}
+		}
+		cands = append(cands, cand{e.Name, wt})
+		total += wt
+	}
+	if nprocs == 0 && !w.EnvAlone {
+		return Obs{}, false
+	}
 	if len(cands) == 0 {
 		return Obs{}, false
 	}
@@ -71,7 +100,16 @@ func (w *Walker) Next() (obs Obs, ok bool) {
 		r -= c.wt
 	}
 	choices := []uint64{w.Rand() >> 8, w.Rand() >> 8, w.Rand() >> 8, w.Rand() >> 8, w.Rand() >> 8, w.Rand() >> 8}
-	obs = w.Sys.Step(name, choices)
+	isEnv := false
+	for _, e := range w.Env {
+		if e.Name == name {
+			obs = e.Run(w.Sys, choices)
+			isEnv = true
+		}
+	}
+	if !isEnv {
+		obs = w.Sys.Step(name, choices)
+	}
 	if obs.Outcome == "abort" {
 		w.blockedAt[name] = stateText
 	} else {
@@ -85,6 +123,11 @@ func (w *Walker) allBlocked() bool {
 	stateText := Text(w.Sys.State.Snapshot())
 	for _, p := range w.Sys.procs {
 		if !p.finished && p.atGate && w.blockedAt[p.Name] != stateText {
+			return false
+		}
+	}
+	for _, e := range w.Env {
+		if w.blockedAt[e.Name] != stateText {
 			return false
 		}
 	}
